@@ -160,7 +160,6 @@ cdef void get_eigenvalvec(double [n][n]A, double *R, double *e):
     R is the output eigen matrix
     e are the output eigenvalues
     '''
-    cdef bint use_iter = False
     cdef int i,j
     if A[0][1] == A[0][2] == A[1][2] == 0.0:
         # diagonal matrix.
@@ -172,20 +171,15 @@ cdef void get_eigenvalvec(double [n][n]A, double *R, double *e):
                 R[i*3+j] = (i==j)
         return
 
-    # FIXME: implement fast version
-    get_eigenvalues(A, e)
-    if e[0] != e[1] and e[1] != e[2] and e[0] != e[2]:
-        # no repeated eigenvalues
-        use_iter = True
-    if _nearly_diagonal(A):
-        # nearly diagonal matrix
-        use_iter = True
-    if not use_iter:
-        get_eigenvec_from_val(A, R, e)
-    else:
-        eigen_decomposition(
-            A, <double(*)[n]>&R[0], &e[0]
-        )
+    # The closed-form eigenvalues (get_eigenvalues) followed by
+    # cross-product eigenvectors (get_eigenvec_from_val) were used here
+    # whenever two computed eigenvalues coincided, which is exactly when that
+    # route cannot work: it returned the same vector for both, and for
+    # matrices of norm below about 2e-3 get_eigenvalues reports a repeated
+    # pair that does not exist.  Always use the iterative routine.
+    eigen_decomposition(
+        A, <double(*)[n]>&R[0], &e[0]
+    )
 
 def py_get_eigenvalvec(double[:,:] A):
     v = numpy.empty((3,3), dtype=float)
